@@ -689,7 +689,7 @@ class SymbolicModeCM(StackMixin, ModeMixin, LibModel):
     satisfy this same contract: induction on the nesting depth, A9)."""
     qual = 'symbolic:symbolic_mode'
     cls = None
-    props = ('C08', 'C12')
+    props = ('C08',)
     modes = ('sound',)
     cm_name = 'symbolic_mode'
     inline = ()
@@ -719,29 +719,6 @@ class SymbolicModeCM(StackMixin, ModeMixin, LibModel):
             return [(st, ZV(z3.Function('root_of', Z.Node, Z.Node)(recv.t), 'node'))]
         return super().getattr(eng, st, recv, name)
 
-    def setattr(self, eng, st, recv, name, v):
-        if isinstance(recv, ZV) and recv.ty in ('node', 'optnode') and name == 'rule_mode':
-            # QueryObjectDescriptor.rule_mode: the description's selected variables are inferred by conclusions
-            st = st.clone()
-            st.ghost['rule_marked'] = st.ghost.get('rule_marked', []) + [(recv.t, eng.to_z3_bool(eng.truth(st, v)))]
-            return [st]
-        return super().setattr(eng, st, recv, name, v)
-
-    def rule_description_marked(self, eng, st):
-        """C12 (rule trees): a query handed to rule_mode(query) - directly a description, or a quantifier over one - is a rule
-        description when the block starts: its selected variable is then bound by the conclusions only (a row whose
-        conclusion was drawn before binds nothing instead of ranging over the registry)."""
-        q = st.locals.get('query')
-        if not (isinstance(q, ZV) and q.ty == 'node'):
-            return
-        mode = st.locals['mode']
-        is_rule = z3.BoolVal(True) if self.cm_name == 'rule_mode' else as_mode(mode) == RuleMode
-        qn = q.t
-        d = z3.If(isa(str_const('ResultQuantifier'), qn), Z.f_child(qn), qn)
-        marked = z3.Or(*[z3.And(n == d, b) for n, b in st.ghost.get('rule_marked', [])]) if st.ghost.get('rule_marked') else z3.BoolVal(False)
-        eng.oblige(st, "C12/rule_mode(query)/the-description-is-marked-as-a-rule-description-when-the-block-starts",
-                   z3.Implies(z3.And(is_rule, isa(str_const('QueryObjectDescriptor'), d)), marked))
-
     def call(self, eng, st, f, args, kwargs, node):
         if isinstance(f, Meth) and isinstance(f.recv, ZV) and f.recv.ty == 'node' and f.name in ('__enter__', '__exit__'):
             q = self.src.resolve_method('SymbolicExpression', f.name)
@@ -766,7 +743,6 @@ class SymbolicModeCM(StackMixin, ModeMixin, LibModel):
         if self.is_cm_yield(st, node):
             return self.cm_yield(eng, st, v, node)
         # the yield of the manager under proof: the block runs here; it is balanced, and it may raise
-        self.rule_description_marked(eng, st)
         a = st.clone()
         a.path.append('block:completes')
         b = st.clone()
@@ -913,7 +889,84 @@ class ExprExit(StackMixin, ModeMixin, LibModel):
         return {}
 
 
-CONTRACTS += [SymbolicModeCM, RuleModeCM, ExprEnter, ExprExit]
+class AddConclusion(LibModel):
+    """SymbolicExpression._add_conclusion_(conclusion) - called by every Conclusion when it is attached to a node of a query
+    (C12): the conclusion joins the node's own set, and the query it now belongs to - the description below the root
+    quantifier, or the root itself if it is a description - is a rule description from then on (rule_mode): its selected
+    variable is bound by the conclusions only, so a row for which no conclusion is drawn (drawn before for the same binding
+    of its variables) contributes nothing instead of ranging over the registry.  Nothing else is written: a rule block that
+    adds no conclusion leaves the query as it was."""
+    qual = 'symbolic:SymbolicExpression._add_conclusion_'
+    cls = 'SymbolicExpression'
+    props = ('C12',)
+    modes = ('sound',)
+    trusted = ("set.add adds one element (A6); _root_ is the root of the expression graph the node is in",)
+
+    def modenv(self):
+        env = base_modenv()
+        return env
+
+    def setup(self, eng):
+        st = State()
+        st.fields = init_fields()
+        self.n = z3.Const('self', Z.Node)
+        st.locals['self'] = ZV(self.n, 'node')
+        st.ghost['self'] = self.n
+        st.locals['conclusion'] = ZV(z3.Const('conclusion', Z.Node), 'node')
+        st.ghost['added'] = []
+        st.ghost['marked'] = []
+        st.ghost['other_writes'] = []
+        return [st]
+
+    def getattr(self, eng, st, recv, name):
+        if isinstance(recv, ZV) and recv.ty in ('node', 'optnode') and name == '_root_':
+            return [(st, ZV(z3.Function('root_of', Z.Node, Z.Node)(recv.t), 'node'))]
+        if isinstance(recv, ZV) and recv.ty in ('node', 'optnode') and name == '_conclusion_':
+            return [(st, Obj('conclusions_of', {'of': recv.t}))]
+        if isinstance(recv, Obj) and recv.kind == 'conclusions_of':
+            return [(st, Meth(recv, name))]
+        return super().getattr(eng, st, recv, name)
+
+    def obj_conclusions_of_add(self, eng, st, recv, args, kwargs, node):
+        st = st.clone()
+        st.ghost['added'] = st.ghost['added'] + [(recv.data['of'], args[0].t if isinstance(args[0], ZV) else None)]
+        return [(st, NONE)]
+
+    def setattr(self, eng, st, recv, name, v):
+        if isinstance(recv, ZV) and recv.ty in ('node', 'optnode'):
+            st = st.clone()
+            if name == 'rule_mode':
+                st.ghost['marked'] = st.ghost['marked'] + [(recv.t, eng.to_z3_bool(eng.truth(st, v)))]
+            else:
+                st.ghost['other_writes'] = st.ghost['other_writes'] + [name]
+            return [st]
+        return super().setattr(eng, st, recv, name, v)
+
+    def on_exit(self, eng, o):
+        st = o.st
+        if o.sig not in (NEXT, RETURN):
+            eng.oblige(st, "C12/add-conclusion/finishes-normally", z3.BoolVal(False))
+            return
+        n = self.n
+        concl = z3.Const('conclusion', Z.Node)
+        added = st.ghost['added']
+        eng.oblige(st, "C12/add-conclusion/joins-the-nodes-own-set", z3.BoolVal(len(added) == 1) if len(added) != 1 else
+                   z3.And(added[0][0] == n, added[0][1] == concl))
+        root = z3.Function('root_of', Z.Node, Z.Node)(n)
+        d = z3.If(isa(str_const('ResultQuantifier'), root), Z.f_child(root), root)
+        marked = st.ghost['marked']
+        is_marked = z3.Or(*[z3.And(m == d, b) for m, b in marked]) if marked else z3.BoolVal(False)
+        eng.oblige(st, "C12/add-conclusion/the-query-becomes-a-rule-description",
+                   z3.Implies(isa(str_const('QueryObjectDescriptor'), d), is_marked))
+        eng.oblige(st, "C12/add-conclusion/only-a-description-is-marked-and-nothing-else-is-written",
+                   z3.And(z3.BoolVal(not st.ghost['other_writes']),
+                          *[z3.And(m == d, isa(str_const('QueryObjectDescriptor'), m)) for m, _ in marked]))
+
+    def signature(self, ob, model):
+        return {}
+
+
+CONTRACTS += [SymbolicModeCM, RuleModeCM, ExprEnter, ExprExit, AddConclusion]
 
 
 Qsub = z3.Function('Qsub', Z.Node, z3.ArraySort(Z.Node, Z.B), Z.B)     # whole subtree quiescent (given the `quiet` array)
